@@ -50,6 +50,7 @@ func runC20(p *eng.Prog, r *eng.Report, tier string) {
 		return
 	}
 	g := f.Graph()
+	c20AccumulatorsPerIteration(c, "C20.8", f)
 	hname := "p1"
 	// ---- C20.4b the encoder's output buffer never overlaps the digest ----------
 	nenc := 0
@@ -575,4 +576,119 @@ func defKindName(d *eng.Def) string {
 		return "a zero value"
 	}
 	return "defined at " + d.Var.Name()
+}
+
+// c20AccumulatorsPerIteration (C20.8): a list that one iteration of a hashing
+// loop fills and then hashes belongs to that iteration. A slice variable that
+// is declared outside a loop of AppendHash and appended to inside it (directly
+// or in a function literal of the loop body) is reset to length zero on every
+// path from the start of the iteration to that statement - otherwise the
+// field names of an earlier form are hashed again with the next form, and the
+// result depends on which forms come before which.
+func c20AccumulatorsPerIteration(c *cx, id string, f *eng.Fn) {
+	g := f.Graph()
+	n := 0
+	f.WalkBody(func(nd ast.Node) bool {
+		loop, ok := nd.(ast.Stmt)
+		if !ok {
+			return true
+		}
+		var body *ast.BlockStmt
+		switch l := loop.(type) {
+		case *ast.RangeStmt:
+			body = l.Body
+		case *ast.ForStmt:
+			body = l.Body
+		default:
+			return true
+		}
+		bodyPt, _, _, okl := g.LoopPoints(loop)
+		if !okl {
+			return true
+		}
+		// appends inside the body (closures included) to variables declared outside it
+		seen := map[*types.Var]bool{}
+		ast.Inspect(body, func(x ast.Node) bool {
+			as, ok := x.(*ast.AssignStmt)
+			if !ok || len(as.Lhs) != 1 || len(as.Rhs) != 1 {
+				return true
+			}
+			cl, ok := ast.Unparen(as.Rhs[0]).(*ast.CallExpr)
+			if !ok || len(cl.Args) < 2 {
+				return true
+			}
+			if tv, okT := f.Info().Types[cl.Fun]; !okT || !tv.IsBuiltin() {
+				return true
+			}
+			if idf, okI := ast.Unparen(cl.Fun).(*ast.Ident); !okI || idf.Name != "append" {
+				return true
+			}
+			li, ok1 := ast.Unparen(as.Lhs[0]).(*ast.Ident)
+			ai, ok2 := ast.Unparen(cl.Args[0]).(*ast.Ident)
+			if !ok1 || !ok2 {
+				return true
+			}
+			v, _ := f.Info().ObjectOf(li).(*types.Var)
+			if v == nil || f.Info().ObjectOf(ai) != types.Object(v) || seen[v] {
+				return true
+			}
+			// declared outside the loop body?
+			if v.Pos() >= body.Pos() && v.Pos() <= body.End() {
+				return true
+			}
+			if v.Pos() >= loop.Pos() && v.Pos() <= loop.End() {
+				return true // the loop's own variable
+			}
+			seen[v] = true
+			// the statement of the body that contains the append (the call that
+			// runs the closure, or the assignment itself)
+			var top ast.Node = as
+			for p := g.Parent(top); p != nil && p != ast.Node(body); p = g.Parent(p) {
+				top = p
+			}
+			tp, okp := g.Where(top)
+			if !okp {
+				// inside a function literal: the node is the statement holding the literal
+				for _, st := range body.List {
+					if st.Pos() <= as.Pos() && as.End() <= st.End() {
+						tp, okp = g.Where(st)
+					}
+				}
+			}
+			if !okp {
+				return true
+			}
+			n++
+			isReset := func(q eng.Point, x ast.Node) bool {
+				ra, ok := x.(*ast.AssignStmt)
+				if !ok || len(ra.Lhs) != 1 || len(ra.Rhs) != 1 {
+					return false
+				}
+				if idn, ok := ast.Unparen(ra.Lhs[0]).(*ast.Ident); !ok || f.Info().ObjectOf(idn) != types.Object(v) {
+					return false
+				}
+				switch r := ast.Unparen(ra.Rhs[0]).(type) {
+				case *ast.Ident:
+					return r.Name == "nil"
+				case *ast.SliceExpr:
+					if hi, ok := f.ConstInt(r.High); ok && hi == 0 && r.Low == nil {
+						return true
+					}
+				case *ast.CallExpr:
+					if f.CalleeID(r) == "builtin.make" && len(r.Args) >= 2 {
+						if k, ok := f.ConstInt(r.Args[1]); ok && k == 0 {
+							return true
+						}
+					}
+				case *ast.CompositeLit:
+					return len(r.Elts) == 0
+				}
+				return false
+			}
+			c.r.Check(id, f, "list "+v.Name()+" filled inside a loop starts empty in every iteration", "O: a slice declared outside the loop and appended to inside it is reset to length 0 on every path from the start of the iteration", as.Pos(), g.MustPassBefore(bodyPt, tp, isReset, nil), "an iteration can start with the elements of the previous one still in the list: they are hashed again")
+			return true
+		})
+		return true
+	})
+	c.r.Note("%s: %d lists declared outside and filled inside a loop of AppendHash (expected 0 on the unchanged tree)", id, n)
 }
